@@ -56,7 +56,13 @@ fn main() {
                         i += 2;
                     }
                     "--seed" => {
-                        seed = args.get(i + 1).and_then(|s| s.parse().ok()).unwrap_or_else(|| usage());
+                        // any integer is accepted (negative values wrap); anything else is hashed
+                        seed = match args.get(i + 1) {
+                            Some(s) => s.parse::<u64>().ok().or_else(|| s.parse::<i64>().ok().map(|x| x as u64)).unwrap_or_else(|| {
+                                s.bytes().fold(0xcbf29ce484222325u64, |h, b| (h ^ b as u64).wrapping_mul(0x100000001b3))
+                            }),
+                            None => usage(),
+                        };
                         i += 2;
                     }
                     _ => usage(),
